@@ -1088,18 +1088,22 @@ class FortranFile:
         post_lines = []
         if forward:
             if self.fixed:
-                if line_ind < self.nLines:
+                # Comment and blank lines may separate continuation lines; they
+                # are only consumed if a continuation line follows them
+                skipped_lines = []
+                while line_ind < self.nLines:
                     next_line = self.get_line(line_ind, pp_content)
                     line_ind += 1
-                    cont_match = FRegex.FIXED_CONT.match(next_line)
-                    while cont_match is not None:
+                    if FRegex.FIXED_CONT.match(next_line):
+                        post_lines.extend(skipped_lines)
+                        skipped_lines = []
                         post_lines.append(" " * 6 + next_line[6:])
-                        # The last line of the file may itself be a continuation
-                        if line_ind >= self.nLines:
-                            break
-                        next_line = self.get_line(line_ind, pp_content)
-                        line_ind += 1
-                        cont_match = FRegex.FIXED_CONT.match(next_line)
+                    elif next_line.rstrip() == "" or FRegex.FIXED_COMMENT.match(
+                        next_line
+                    ):
+                        skipped_lines.append("")
+                    else:
+                        break
             else:
                 line_stripped = strip_strings(curr_line, maintain_len=True)
                 iAmper = line_stripped.find("&")
